@@ -45,6 +45,8 @@ def run(R):
             r4(R, M)
         if R.want("C10.R5"):
             r5(R, M)
+        if R.want("C10.R6"):
+            r6(R, M)
         if R.want("C10.R2"):
             r2(R, M)
         if R.want("C10.R3"):
@@ -315,6 +317,74 @@ def r4(R, M):
     I.call("tensor_map", "tensor_sample_to_crystal", T, U, r2_)
     ok, why = vn_py.same(r2_, np.dot(U.T, np.dot(T, U)))
     R.check(ok, "C10.R4", TM, tm.func("tensor_sample_to_crystal").lineno, "tensor_sample_to_crystal", "U^T . T . U", why)
+
+
+def r6(R, M):
+    """the reference (d-zero) cell of a voxel is the cell of the voxel's phase id: TensorMap.phases is a dict keyed by phase id, so the
+    dzero_unitcell map is filled per (key, cell) pair under the mask phase_ids == key, or by subscripting self.phases with a key.
+    A sequence made from the dict's values (insertion order) and indexed with phase ids pairs cells with the wrong phases whenever
+    the dict is not in ascending 0..n-1 order (phases={1: b, 0: a}; more than 10 phases read back from HDF5)."""
+    R.rule("C10.R6", "TensorMap.dzero_unitcell: each voxel gets the lattice parameters of self.phases[<its phase id>] (pairs from "
+                     ".items() under the mask phase_ids == key, or a subscript by key) - never a list of the dict's values indexed by phase id")
+    tm = M["tensor_map"]
+    q = "TensorMap.dzero_unitcell"
+    fn = tm.ifunc(q, depth=2)
+    uses = [a for a in ast.walk(fn) if isinstance(a, ast.Attribute) and a.attr == "phases" and src(a.value) == "self"]
+    R.shape(bool(uses), "C10.R6", TM, q, "the use of self.phases")
+    n = 0
+    for a in uses:
+        par = getattr(a, "_parent", None)
+        # self.phases[k]
+        if isinstance(par, ast.Subscript) and par.value is a:
+            n += 1
+            R.inst("C10.R6", "%s:%s self.phases[%s]" % (TM, q, src(par.slice)))
+            continue
+        meth = par.attr if isinstance(par, ast.Attribute) and isinstance(getattr(par, "_parent", None), ast.Call) else None
+        holder = getattr(getattr(par, "_parent", None), "_parent", None) if meth else par
+        call = getattr(par, "_parent", None) if meth else a
+        if meth == "items" and isinstance(holder, ast.For) and holder.iter is call and isinstance(holder.target, ast.Tuple) and len(holder.target.elts) == 2:
+            k, u = [src(e) for e in holder.target.elts]
+            stores = [st for st in ast.walk(holder) if isinstance(st, ast.Assign) and isinstance(st.targets[0], ast.Subscript)
+                      and any(isinstance(x, ast.Name) and x.id == u for x in ast.walk(st.value))]
+            R.shape(bool(stores), "C10.R6", TM, q, "the store of %s's lattice parameters inside the loop over self.phases.items()" % u)
+            for st in stores:
+                n += 1
+                mask = pyfacts.resolved(fn, st.targets[0].slice, 2, keep=(k, u))
+                ok = isinstance(mask, ast.Compare) and len(mask.ops) == 1 and isinstance(mask.ops[0], ast.Eq) and \
+                    sorted([src(mask.left), src(mask.comparators[0])]) == sorted([k, "self.phase_ids"])
+                if not ok and not (isinstance(mask, ast.Compare) and "phase_ids" in src(mask)):
+                    R.shape(False, "C10.R6", TM, q, "the voxel mask '%s' of the per-phase store" % src(mask)[:60])
+                R.check(ok, "C10.R6", TM, st.lineno, q, "%s under mask %s" % (src(st.value), src(mask)),
+                        "the cell of phase %s is written to voxels selected by something else than phase_ids == %s" % (k, k))
+            continue
+        if meth in ("keys",) or (meth is None and isinstance(par, (ast.For, ast.comprehension)) and par.iter is a):
+            loop = holder if meth else par
+            k = src(loop.target)
+            sub = [x for x in ast.walk(fn) if isinstance(x, ast.Subscript) and src(x.value) == "self.phases" and src(x.slice) == k]
+            R.shape(bool(sub), "C10.R6", TM, q, "self.phases[%s] inside the loop over the phase ids" % k)
+            n += 1
+            R.inst("C10.R6", "%s:%s loop over keys with self.phases[%s]" % (TM, q, k))
+            continue
+        if meth == "values" or (meth is None and isinstance(par, ast.Call) and src(par.func) in ("list", "tuple") and False):
+            # a sequence in dict order: positive evidence when it (or an array made from it) is indexed with the phase ids
+            seq_stmt = pyfacts.containing_stmt(a)
+            names = [src(t) for t in seq_stmt.targets] if isinstance(seq_stmt, ast.Assign) else []
+            hit = None
+            for x in ast.walk(fn):
+                if isinstance(x, ast.Subscript) and (src(x.value) in names or x.value is call or any(y is a for y in ast.walk(x.value))):
+                    idx = pyfacts.resolved_src(fn, x.slice, 2, keep=("self",))
+                    if "phase_id" in idx:
+                        hit = x
+            if hit is None:
+                R.shape(False, "C10.R6", TM, q, "how the sequence built from self.phases.values() is matched to the phase ids")
+            n += 1
+            R.check(False, "C10.R6", TM, hit.lineno, q, "%s with %s from self.phases.values()" % (src(hit)[:60], names[0] if names else "a sequence"),
+                    "the cells are put in a sequence in the dict's insertion order and that sequence is indexed with phase ids: a phases dict "
+                    "that is not in ascending 0..n-1 order (e.g. {1: b, 0: a}, or more than 10 phases read back from HDF5 in name order) pairs "
+                    "voxels with the reference cell of another phase, so every strain in those voxels is measured against the wrong cell")
+            continue
+        R.shape(False, "C10.R6", TM, q, "this use of self.phases: %s" % src(getattr(par, "_parent", par))[:70])
+    R.floor("C10.R6", 1)
 
 
 def r5(R, M):
